@@ -102,6 +102,8 @@ def enumerate_all(ck, tmp):
                     v = g.gen(mc, 2)
                     for p, c in g.files.items():
                         open(p, "wb").write(c)
+                    if rid in (-1, -2) and not v:
+                        continue        # an EMPTY payload / dependency map writes nothing at all: no name to render
                     r = interp.run_impl(interp.impl_encode, d["class"], {name: v})
                     if r[0] == "ok":
                         desc, files = {name: v}, dict(g.files)
@@ -146,7 +148,7 @@ def enumerate_all(ck, tmp):
         shown = ires[1] if kind == "SuitEnum" else list(ires[1].keys())
         ok = (shown == name) if kind == "SuitEnum" else (shown == [name])
         if rid in (-1, -2):   # pseudo keys: text-keyed members are classified by their content when parsing
-            ok = shown in (["suit-integrated-payloads"], ["suit-integrated-dependencies"])
+            ok = shown in (["suit-integrated-payloads"], ["suit-integrated-dependencies"]) or (data == b"\xa0" and shown == [])
         if not ok:
             fails.append({"input": inp, "observed": f"rendered as {shown!r}", "expected": f"rendered as {name!r}"})
     # ---- names of key spaces that only ever appear INSIDE an unnamed map (text keys, component keys of a text map): rendered in context,
